@@ -189,7 +189,6 @@ Fixpoint split_dot (s : str) : str * str :=
 Definition float_shaped (t : str) : bool :=
   memN 46 t && let '(a, b) := split_dot t in nonempty a && all_digits a && nonempty b && all_digits b.
 Definition regexp_ok (v fl : str) : bool :=
-  nul_free v &&
   match fl with
   | [] => negb (is_prefix [40; 63] v)
   | _ => negb (memN 41 fl) && flags_ok fl
@@ -235,7 +234,8 @@ Fixpoint count_def (l : list (bool * list expr * list stmt)) : nat :=
 (*  - integer literals are non-empty digit strings whose value is the  *)
 (*    recorded one (and fits int64); float literals are digits '.'     *)
 (*    digits (their value comes from the oracle: `floats_known`);      *)
-(*    strings and regexp bodies contain no NUL; a regexp without flags *)
+(*    strings and regexp bodies are any text (U+0000 included: it is   *)
+(*    an ordinary character inside a literal); a regexp without flags  *)
 (*    does not begin with "(?", flags are drawn from i, m;             *)
 (*  - names (variables, assignment targets, function names, parameters,*)
 (*    foreach variables, `local` names, the name after `.`) are        *)
@@ -271,7 +271,7 @@ Fixpoint pe (tn fn : bool) (e : expr) {struct e} : bool :=
   match e with
   | EInt t v => int_ok t v
   | EFloat t _ => float_shaped t
-  | EStr s => nul_free s
+  | EStr s => true
   | EBool _ => true
   | ERegexp v fl => regexp_ok v fl
   | EIdent n => ident_ok n
